@@ -460,26 +460,43 @@ func ruleH3(c *Ctx) {
 		}
 		c.ok("H3", "clamp", clamp.Pos(), bad == "", what, bad)
 	}
-	// zero mask replaced by stub.events
+	// zero mask replaced by stub.events: exactly when the handler's mask is zero
 	okZero := false
+	badZero := "no branch replaces an empty mask by the implemented events"
 	for _, b := range f.Blocks {
-		iff := lastIf(b)
-		if iff == nil {
-			continue
-		}
-		if bo, ok := iff.Cond.(*ssa.BinOp); ok && bo.Op == token.EQL {
-			if z, ok := constInt(bo.Y); ok && z == 0 {
-				// the true branch stores stub.events into the mask variable
-				t := b.Succs[0]
-				for _, in := range t.Instrs {
-					if st, ok := in.(*ssa.Store); ok && m.ap(st.Val).PathString() == "events" {
-						okZero = true
+		for _, in := range b.Instrs {
+			st, ok := in.(*ssa.Store)
+			if !ok || m.ap(st.Val).PathString() != "events" {
+				continue
+			}
+			if _, isCell := st.Addr.(*ssa.Alloc); !isCell {
+				continue
+			}
+			if hcall == nil || !instrCanReach(hcall, st) {
+				continue // the no-handler default
+			}
+			cds := controls(b)
+			okHere := false
+			if len(cds) > 0 {
+				if bo, ok := normCond(cds[0]).V.(*ssa.BinOp); ok && bo.Op == token.EQL && cds[0].Pol {
+					if z, ok := constInt(bo.Y); ok && z == 0 {
+						for _, src := range valueSources(bo.X, cds[0].If, 0) {
+							if ex, ok := src.(*ssa.Extract); ok && ex.Tuple == ssa.Value(hcall) && ex.Index == 0 {
+								okHere = true
+							}
+						}
 					}
 				}
 			}
+			if okHere {
+				okZero = true
+			} else {
+				okZero = false
+				badZero = "the handler's mask is replaced by the implemented events under a condition other than 'mask == 0': a non-empty mask asking for more than the plugin implements is silently clamped instead of rejected (or a valid one is overridden)"
+			}
 		}
 	}
-	c.ok("H3", "zero-mask", f.Pos(), okZero, "an empty mask from the handler is replaced by the implemented events", "no test for a zero mask")
+	c.ok("H3", "zero-mask", f.Pos(), okZero, "only an empty mask from the handler is replaced by the implemented events", badZero)
 	// cfgErrC: exactly one send, in a deferred closure registered before any return
 	nSend := 0
 	var df *ssa.Defer
